@@ -327,6 +327,57 @@ static std::string do_pack(Communication<MPI_Comm>& cc, const Case& c)
   return r;
 }
 
+// ------------------------------------------------------------------ MPIPack script with seeks, overwrites and a hop to another rank
+// pks <prelen> <op>...    op = s|<ty>|<hex> , d|<ty>|<hex> (pack at the cursor)   k|<pos> , k|end (seek)   r|s|<ty>|<exp> , r|d|<ty>|<exp> (unpack)
+//                              x (rank 0 sends the pack, rank 1 receives it with rrecv and executes the remaining ops)
+// after every op: B<buffer>,<size>,<tell>,<e|n>   K<size>,...   R<object bytes>,<size>,...   X<buffer>,<size>,...
+static std::string pk_state(MPIPack& p) { return std::to_string(p.size()) + "," + std::to_string(p.tell()) + "," + (p.eof() ? "e" : "n"); }
+static std::string pk_buf(MPIPack& p) { auto md = getMPIData(p); return hexof(md.ptr(), (std::size_t) md.size()); }
+static bool pk_op(MPIPack& p, const std::string& op, std::size_t prelen, std::string& r)
+{
+  auto it = split(op, '|');
+  if (it[0] == "k") { p.seek(it[1] == "end" ? (int) p.size() : (int) toll(it[1])); r += "/K" + pk_state(p); return true; }
+  if (it[0] == "s" || it[0] == "d") {
+    auto bytes = unhex(it[2]);
+    bool ok = dispatch(it[1], [&](auto tag) { typedef typename decltype(tag)::Codec::T T;
+      auto v = objs_from<T>(bytes);
+      if (it[0] == "s") p << v[0];
+      else if constexpr (std::is_same<T,char>::value) { std::string s(v.begin(), v.end()); p << s; }
+      else p << v; });
+    r += "/B" + pk_buf(p) + "," + pk_state(p); return ok;
+  }
+  if (it[0] == "r") {
+    bool ok = dispatch(it[2], [&](auto tag) { typedef typename decltype(tag)::Codec::T T;
+      if (it[1] == "s") { alignas(T) unsigned char raw[sizeof(T)]; std::memset(raw, 0xA5, sizeof raw); T* t = (T*) raw; p >> *t; r += "/R" + hexof(raw, sizeof raw); }
+      else if constexpr (std::is_same<T,char>::value) { std::string s(prelen, 'z'); p >> s; r += "/R" + hexof(s.data(), s.size()); }
+      else { std::vector<T> v(prelen); p >> v; r += "/R" + masked<T>(v.data(), v.size()); } });
+    r += "," + pk_state(p); return ok;
+  }
+  return false;
+}
+static std::string do_pks(Communication<MPI_Comm>& cc, const Case& c, int me)
+{
+  std::size_t prelen = (std::size_t) toll(c.t[1]);
+  std::size_t xi = c.t.size();
+  for (std::size_t i = 2; i < c.t.size(); ++i) if (c.t[i] == "x") xi = i;
+  const int tag = 13;
+  if (xi < c.t.size() && cc.size() < 2) return "UNSUPPORTED";
+  std::string r;
+  if (me == 0) {
+    MPIPack p(cc);
+    for (std::size_t i = 2; i < xi; ++i) if (!pk_op(p, c.t[i], prelen, r)) return "UNSUPPORTED";
+    if (xi < c.t.size()) cc.send(p, 1, tag);
+    return r.empty() ? "-" : r;
+  }
+  if (me == 1 && xi < c.t.size()) {
+    MPIPack p = cc.rrecv(MPIPack(cc), 0, tag);
+    r += "/X" + pk_buf(p) + "," + pk_state(p);
+    for (std::size_t i = xi + 1; i < c.t.size(); ++i) if (!pk_op(p, c.t[i], prelen, r)) return "UNSUPPORTED";
+    return r;
+  }
+  return "-";
+}
+
 // ------------------------------------------------------------------ layout measurement (public interface only)
 template<class T, class... A> static std::vector<unsigned char> image(A&&... a)
 { alignas(T) unsigned char raw[sizeof(T)]; std::memset(raw, 0, sizeof raw); new (raw) T(std::forward<A>(a)...); return std::vector<unsigned char>(raw, raw + sizeof(T)); }
@@ -428,6 +479,7 @@ int main(int argc, char** argv)
       else if (c.t[0] == "p2p") dispatch(c.t[2], [&](auto tag) { typedef typename decltype(tag)::Codec C; mine = do_p2p<C>(cc, c, me); });
       else if (c.t[0] == "dt") dispatch(c.t[1], [&](auto tag) { typedef typename decltype(tag)::Codec C; mine = do_dt<C>(cc, c, me); });
       else if (c.t[0] == "pack") mine = me == 0 ? do_pack(cc, c) : "-";
+      else if (c.t[0] == "pks") mine = do_pks(cc, c, me);
       else if (c.t[0] == "layout") { if (me != 0) mine = "-"; else dispatch(c.t[1], [&](auto tag) { typedef typename decltype(tag)::Codec::T T;
         int ps = 0; MPI_Pack_size(1, MPITraits<T>::getType(), MPI_COMM_WORLD, &ps); MPI_Aint lb, ext; MPI_Type_get_extent(MPITraits<T>::getType(), &lb, &ext);
         mine = "size=" + std::to_string(ps) + " extent=" + std::to_string((long) ext) + " sizeof=" + std::to_string(sizeof(T)); }); }
